@@ -5,9 +5,9 @@ package main
 import (
 	"context"
 	"fmt"
+	"os"
 	"sort"
 	"strings"
-	"os"
 	"time"
 
 	"perkeep.org/pkg/blob"
@@ -84,7 +84,10 @@ func observeIndex(ctxb context.Context, ix *index.Index, corp *index.Corpus, ref
 		corp.EnumeratePermanodesCreated(func(bm camtypes.BlobMeta) bool { xs = append(xs, bm.Ref.String()[7:15]); return true }, true)
 		obs["by-created"] = strings.Join(xs, " ")
 		xs = nil
-		corp.EnumerateBlobMeta(func(bm camtypes.BlobMeta) bool { xs = append(xs, bm.Ref.String()[7:15]+":"+string(bm.CamliType)); return true })
+		corp.EnumerateBlobMeta(func(bm camtypes.BlobMeta) bool {
+			xs = append(xs, bm.Ref.String()[7:15]+":"+string(bm.CamliType))
+			return true
+		})
 		sort.Strings(xs)
 		obs["all-meta"] = strings.Join(xs, " ")
 		for _, ct := range []schema.CamliType{schema.TypePermanode, schema.TypeClaim, schema.TypeFile, schema.TypeDirectory} {
